@@ -27,9 +27,25 @@ def is_const(t):
     return z3.is_bv_value(t) or z3.is_true(t) or z3.is_false(t)
 
 
+def lit(c):
+    """fold a comparison whose operands are all literals (z3py does not simplify `1 == 2`)"""
+    try:
+        n = c.num_args()
+    except AttributeError:
+        return c
+    if n == 0 or n > 2:
+        return c
+    for i in range(n):
+        a = c.arg(i)
+        if not (z3.is_bv_value(a) or z3.is_true(a) or z3.is_false(a)):
+            return c
+    return z3.simplify(c)
+
+
 def And(*cs):
     out = []
     for c in cs:
+        c = lit(c)
         if z3.is_false(c):
             return FALSE
         if z3.is_true(c):
@@ -55,6 +71,7 @@ def And(*cs):
 def Or(*cs):
     out = []
     for c in cs:
+        c = lit(c)
         if z3.is_true(c):
             return TRUE
         if z3.is_false(c):
@@ -81,6 +98,7 @@ def Or(*cs):
 
 
 def Not(c):
+    c = lit(c)
     if z3.is_true(c):
         return FALSE
     if z3.is_false(c):
@@ -118,6 +136,10 @@ class AV:
         return "AV[%d]" % len(self.e)
 
 
+import os as _os
+_DEBUG_SYMIDX = bool(_os.environ.get("VERIF_DEBUG_SYMIDX"))
+
+
 class ZA:
     """array of integers backed by a z3 array (BV64 -> BVn) plus an overlay of
     values at concrete indexes (so that concrete-index code never touches the
@@ -141,6 +163,8 @@ class ZA:
         return self._fl
 
     def read(self, idx):
+        if not z3.is_bv_value(idx):
+            idx = z3.simplify(idx)     # constant expressions (header lengths read back from the buffer)
         if z3.is_bv_value(idx):
             k = idx.as_long()
             v = self.ov.get(k)
@@ -151,10 +175,15 @@ class ZA:
                     return self.arr.arg(0)
                 return z3.Select(self.arr, idx)
             return z3.simplify(z3.Select(self.arr, idx))
+        if _DEBUG_SYMIDX:
+            import traceback, sys
+            print("SYMIDX read idx=%s :: %s" % (str(idx)[:200].replace("\n", " "), " < ".join(f.name for f in traceback.extract_stack()[-9:-1])), file=sys.stderr)
         return z3.Select(self.flush(), idx)
 
     def write(self, idx, val, cc=None):
         """returns a new ZA; cc = condition under which the write happens (None = always)"""
+        if not z3.is_bv_value(idx):
+            idx = z3.simplify(idx)
         if z3.is_bv_value(idx):
             k = idx.as_long()
             ov = dict(self.ov)
@@ -163,6 +192,9 @@ class ZA:
             else:
                 ov[k] = zif(cc, val, self.read(idx))
             return ZA(self.arr, self.n, ov)
+        if _DEBUG_SYMIDX:
+            import traceback, sys
+            print("SYMIDX write idx=%s :: %s" % (str(idx)[:200].replace("\n", " "), " < ".join(f.name for f in traceback.extract_stack()[-7:-1])), file=sys.stderr)
         fl = self.flush()
         nv = val if (cc is None or z3.is_true(cc)) else zif(cc, val, z3.Select(fl, idx))
         return ZA(z3.Store(fl, idx, nv), self.n)
@@ -325,6 +357,7 @@ def zexpr_eq(a, b):
 
 
 def zif(c, a, b):
+    c = lit(c)
     if z3.is_true(c):
         return a
     if z3.is_false(c):
@@ -365,6 +398,7 @@ def merge_ptr(c, a, b):
 
 def ite(c, a, b):
     """generic if-then-else over the value domain"""
+    c = lit(c)
     if z3.is_true(c):
         return a
     if z3.is_false(c):
@@ -480,6 +514,8 @@ def eq(a, b):
             return z3.fpEQ(a, b)
         if a.eq(b):
             return TRUE
+        if z3.is_bv_value(a) and z3.is_bv_value(b):
+            return FALSE
         r = a == b
         return r
     ta = type(a)
